@@ -219,10 +219,17 @@ def doc_params(tier):
     for depth in (0, 1, 2):
         for perm in itertools.permutations(["alpha", "beta", "gamma"]):
             out.append({"t": "nest", "depth": depth, "order": list(perm)})
+    # group paths and urls, incl. the empty string (an image file name with neither polarisation nor scan gives the group path "")
+    for gpath in ("", "/", "HH", "HH_scan1", "a/b", None):
+        for url in (None, "", "memory:///r", "file:///x y/z"):
+            out.append({"t": "paths", "path": gpath, "url": url})
+    # backend image arrays; 'shift' moves the byte ranges only: documents that agree in everything but the byte ranges
+    # (an image file replaced in place) must not be confused
     for tc, dtype in (("IU2", "uint16"), ("C*8", "complex64")):
         for L in (1, 3):
             for rpc in (1, 2, 1024):
-                out.append({"t": "backend", "tc": tc, "dtype": dtype, "L": L, "P": 4, "rpc": rpc})
+                for shift in (0, 7, 720):
+                    out.append({"t": "backend", "tc": tc, "dtype": dtype, "L": L, "P": 4, "rpc": rpc, "shift": shift})
     return out
 
 
@@ -249,6 +256,11 @@ def build_doc(p):
     if p["t"] == "attrs":
         g = Group(path="/", url=None, data={"v": Variable(["x"], np.arange(2), dict(ATTRS[p["attrs"]]))}, attrs=dict(ATTRS[p["attrs"]]))
         return g, 2
+    if p["t"] == "paths":
+        sub = Group(path=p["path"], url=p["url"], data={"v": Variable(["x"], np.arange(2), {})}, attrs={"k": 1})
+        sub.path = p["path"]  # the reader assigns the path after construction
+        g = Group(path="/", url=p["url"], data={"child": sub, "w": Variable(["x"], [1.5, 2.5], {})}, attrs={})
+        return (g if p["path"] in (None, "/") else sub), 2
     if p["t"] == "nest":
         def leaf(i):
             return Variable(["x"], np.arange(i + 1, dtype="int32"), {"i": i})
@@ -264,7 +276,7 @@ def build_doc(p):
 
         fs = DirFileSystem(path="/some/root dir", fs=fsspec.filesystem("file"))
         bps = 2 if p["tc"] == "IU2" else 8
-        br = [(720 + k * (192 + p["P"] * bps) + 192, 720 + (k + 1) * (192 + p["P"] * bps)) for k in range(p["L"])]
+        br = [(p.get("shift", 0) + 720 + k * (192 + p["P"] * bps) + 192, p.get("shift", 0) + 720 + (k + 1) * (192 + p["P"] * bps)) for k in range(p["L"])]
         arr = Array(fs=fs, url="IMG-HH-X", byte_ranges=br, shape=(p["L"], p["P"]), dtype=p["dtype"], type_code=p["tc"], records_per_chunk=p["rpc"])
         g = Group(path="HH", url=None, data={"data": Variable(["rows", "columns"], arr, {}), "rows": Variable(["rows"], list(range(1, p["L"] + 1)), {})}, attrs={"coordinates": ["rows"]})
         return g, p["rpc"]
